@@ -1,7 +1,7 @@
 import tlc2.overrides.ITLCOverrides;
 
-/** Registers the accelerator class with TLC (-Dtlc2.overrides.TLCOverrides=...:VerifOverrides). */
+/** All accelerators (-Dtlc2.overrides.TLCOverrides=tlc2.overrides.TLCOverrides:VerifOverrides). */
 public class VerifOverrides implements ITLCOverrides {
   @SuppressWarnings("rawtypes")
-  public Class[] get() { return new Class[] { Accel.class }; }
+  public Class[] get() { return new Class[] { Accel.class, AccelEC.class }; }
 }
